@@ -77,7 +77,13 @@ func c20Thread(seed uint64, nops int) string {
 			}
 		case 3: // Clone + edit
 			if reuse != nil {
-				cl := reuse.Clone(nil)
+				var cl *simdjson.ParsedJson
+				if r.Bool() {
+					cl = reuse.Clone(nil)
+				} else {
+					var fresh simdjson.ParsedJson
+					cl = reuse.Clone(&fresh)
+				}
 				hh := &history{pj: cl}
 				c := &Ctx{}
 				for e := 0; e < 1+r.Intn(4); e++ {
@@ -164,6 +170,81 @@ func c20Thread(seed uint64, nops int) string {
 	return fmt.Sprintf("%x", h.Sum(nil))
 }
 
+// c20Handoff: goroutine A parses a document and hands CLONES of it (made in the three
+// ways the API offers) to goroutine B; A then goes on using the original (parses new
+// documents into it, edits strings) while B edits, reads, marshals the clones and uses
+// one as a Deserialize destination.  Original and clones are independent objects: both
+// digests must equal the ones obtained when B finishes before A continues.
+func c20Handoff(seed uint64, concurrent bool) (string, string) {
+	r := NewRng(seed)
+	docs := make([][]byte, 6)
+	for i := range docs {
+		docs[i] = []byte(fmt.Sprintf(`{"name":"%s-%d","list":["%s","b%d"],"n":%d,"s":"%s"}`, strPool[r.Intn(4)], i, strPool[r.Intn(6)], i, i, strings.Repeat("x", r.Intn(40))))
+	}
+	orig, err := simdjson.Parse(docs[0], nil)
+	if err != nil {
+		return "parse-error", ""
+	}
+	var fresh simdjson.ParsedJson
+	earlier := orig.Clone(nil)
+	clones := []*simdjson.ParsedJson{orig.Clone(nil), orig.Clone(&fresh), orig.Clone(earlier)}
+	ser := simdjson.NewSerializer()
+	blob := ser.Serialize(nil, *orig)
+	bWork := func() string {
+		h := sha1.New()
+		for k, cl := range clones {
+			for e := 0; e < 4; e++ {
+				if pos, perr := flatPositions(cl, 200); perr == nil {
+					for _, p := range pos {
+						if p.IsValue && (p.Tag == simdjson.TagString || p.Tag == simdjson.TagInteger) {
+							it := iterAt(cl, p.K)
+							it.SetString(fmt.Sprintf("clone-%d-edit-%d-%s", k, e, strings.Repeat("y", 5*e)))
+							break
+						}
+					}
+				}
+				d, _ := dumpDoc(cl)
+				io.WriteString(h, d)
+				runtime.Gosched()
+			}
+			if k == 2 {
+				if back, err := simdjson.NewSerializer().Deserialize(blob, cl); err == nil {
+					d, _ := dumpDoc(back)
+					io.WriteString(h, "D"+d)
+				}
+			}
+		}
+		return fmt.Sprintf("%x", h.Sum(nil))
+	}
+	aWork := func() string {
+		h := sha1.New()
+		cur := orig
+		for i := 1; i < len(docs); i++ {
+			if pj, err := simdjson.Parse(docs[i], cur); err == nil {
+				cur = pj
+				it := iterAt(cur, 4)
+				it.SetString(fmt.Sprintf("original-edit-%d", i))
+				d, _ := dumpDoc(cur)
+				io.WriteString(h, d)
+			}
+			runtime.Gosched()
+		}
+		return fmt.Sprintf("%x", h.Sum(nil))
+	}
+	if !concurrent {
+		b := bWork()
+		a := aWork()
+		return a, b
+	}
+	var a, b string
+	var wg sync.WaitGroup
+	wg.Add(2)
+	go func() { defer wg.Done(); a = aWork() }()
+	go func() { defer wg.Done(); b = bWork() }()
+	wg.Wait()
+	return a, b
+}
+
 func init() {
 	if len(os.Args) >= 5 && os.Args[1] == "c20work" {
 		seed, _ := strconv.ParseUint(os.Args[2], 10, 64)
@@ -198,13 +279,22 @@ func init() {
 				bad++
 			}
 		}
+		// clones handed to another goroutine while the original stays in use
+		for k := 0; k < 20; k++ {
+			wa, wb := c20Handoff(seed*77+uint64(k), false)
+			ga, gb := c20Handoff(seed*77+uint64(k), true)
+			if wa != ga || wb != gb {
+				fmt.Printf("MISMATCH clone-handoff seed=%d\n", seed*77+uint64(k))
+				bad++
+			}
+		}
 		fmt.Printf("DONE goroutines=%d ops=%d mismatches=%d\n", n, nops, bad)
 		os.Exit(0)
 	}
 }
 
 func checkC20(c *Ctx) {
-	c.Ev.Coverage.Rule = "a harness binary built with the Go race detector (-race) runs N goroutines (2, 8, 32, 64), each a seeded random sequence of Parse (both sides of the 8 KiB threshold, with per-goroutine reuse), ParseND, ParseNDStream, traversal, Clone+edit+marshal, Serialize/Deserialize in all modes on its OWN objects, under GOMAXPROCS 1..16; each goroutine's digest of everything it observed is compared with the same sequence run alone; any race-detector report or digest mismatch is a violation. non-trivial = concurrent run completed; distinct = by (seed, N, GOMAXPROCS)"
+	c.Ev.Coverage.Rule = "a harness binary built with the Go race detector (-race) runs N goroutines (2, 8, 32, 64), each a seeded random sequence of Parse (both sides of the 8 KiB threshold, with per-goroutine reuse), ParseND, ParseNDStream, traversal, Clone+edit+marshal, Serialize/Deserialize in all modes on its OWN objects, under GOMAXPROCS 1..16; each goroutine's digest of everything it observed is compared with the same sequence run alone; plus clone hand-offs: clones made with Clone(nil)/Clone(&zero)/Clone(earlier clone) are edited, read and deserialized into by a second goroutine while the first keeps parsing into and editing the original; any race-detector report or digest mismatch is a violation. non-trivial = concurrent run completed; distinct = by (seed, N, GOMAXPROCS)"
 	race := filepath.Join(c.Verif, "build", "vcheck_race")
 	if _, err := os.Stat(race); err != nil {
 		c.Ev.Note("race-enabled harness binary missing: " + err.Error())
